@@ -49,6 +49,20 @@ def main():
     out += ["", f"{ndet} of {len(rows)} confirmed changes are reported by the quick tier of their own property's check.", ""]
     with open(os.path.join(SEEDED, "README.md"), "w") as f:
         f.write("\n".join(out))
+    # compact per-property table inside DESIGN.md (between the markers)
+    by_prop = {}
+    for name, pid, what, conf, rc, nv, jobs, key, wall in rows:
+        by_prop.setdefault(pid, []).append((name, what, rc, jobs, key))
+    tab = ["| prop | seeded change (what it needs is in its notes.md) | quick check | reporting harness / first key |", "|---|---|---|---|"]
+    for pid in sorted(by_prop):
+        for name, what, rc, jobs, key in by_prop[pid]:
+            tab.append(f"| {pid} | `{name}`: {what[:110]} | {'reported' if rc == 1 else ('harness error' if rc == 2 else 'not reported')} | {jobs.split(',')[0] if jobs else ''} / {key} |")
+    dp = os.path.join(HERE, "DESIGN.md")
+    d = open(dp).read()
+    b, e = "<!-- seeded-table:begin -->", "<!-- seeded-table:end -->"
+    if b in d and e in d:
+        d = d[:d.index(b) + len(b)] + "\n" + "\n".join(tab) + "\n" + d[d.index(e):]
+        open(dp, "w").write(d)
     print(f"{ndet}/{len(rows)} detected")
 
 
